@@ -126,6 +126,17 @@ ASetCookie  == \E k \in Pick(SimCookieNames), a \in Pick(SimCookieArgs) : SetCoo
 AUnsetCookie == \E k \in Pick(SimCookieNames), u \in Pick(UnsetArgs) : UnsetCookie(k, u) /\ Log(CU(k, u))
 ANext == AGet \/ ASet \/ ADelete \/ AAppend \/ ASetHeaders \/ ASetTyped \/ AGetTyped \/ AAppendLink
          \/ ASetCookie \/ AUnsetCookie
+(* exhaustive small-scope export (BFS, MC_RespHeadersLink.cfg): EVERY history of Depth calls that touch the Link header,
+   through the plain-header calls in two casings and through append_link - e.g. append_link / set_header('Link') /
+   append_link.  Each is replayed on the real objects. *)
+LinkNames == [b : {"link"}, c : {0, 1}]
+LInit == Init /\ sd = TRUE /\ h = <<>>
+LGet        == \E n \in LinkNames : GetHeader(n) /\ Log(CN("get", n, ""))
+LSet        == \E n \in LinkNames : SetHeader(n, "v1") /\ Log(CN("set", n, "v1"))
+LDelete     == \E n \in LinkNames : DeleteHeader(n) /\ Log(CN("delete", n, ""))
+LAppend     == \E n \in LinkNames : AppendHeader(n, "v2") /\ Log(CN("append", n, "v2"))
+LAppendLink == \E l \in Links : AppendLink(LinkSafe(l)) /\ Log(CL(l))
+LNext == LGet \/ LSet \/ LDelete \/ LAppend \/ LAppendLink
 Emit == (Len(h) = Depth) =>
         PrintT(ToJson([sd |-> sd, ev |-> h, plain |-> EmitView(model), raw |-> raw, jar |-> JarView(jar)]))
 
